@@ -47,7 +47,7 @@ def step (s : St) (w : List String) : St × String :=
   | ["variant", v] => ({ s with fixed := v == "fixed" }, "ok")
   | ["new", t] | ["enew", t] =>
     match t.toNat? with
-    | some t => ({ s with g := newTxGuard t }, "ok")
+    | some t => ({ s with g := newTxGuard t, univ := [] }, "ok")   -- a new node / case: earlier blocks are never referenced again
     | none => (s, "bad-op")
   | "blk" :: id :: p :: h :: t :: txs =>
     match id.toNat?, p.toNat?, h.toNat?, t.toNat?, txs.mapM tx? with
